@@ -17,7 +17,7 @@ ASSUME = ['steps stay below the 250-tuple per-step ring']
 def run_case(ctx, n):
   rng = ctx.rng('kind', n)
   long_run = rng.random() < 0.08
-  r = qcheck.run_qcase(ctx, n, ('C20',), long_run=long_run, n_ops=1500 if n % 500 == 7 else None)
+  r = qcheck.run_qcase(ctx, n, ('C20',), with_queries=n % 2 == 0, long_run=long_run, n_ops=1500 if n % 500 == 7 else None)
   if r is None:
     return
   res, spec, cfg = r
